@@ -45,6 +45,7 @@ type FuncSpec struct {
 	Modifies []string        // ghost names; nil = unknown (all)
 	ModSet   bool
 	Pure     bool
+	Nullable []string // parameter field paths (param.Field) whose pointer may be nil
 	Inline   bool
 	Lets     []*Clause // let name := expr (evaluated in post-state)
 	AtCalls  map[string][]*Clause // callee short name -> assertions checked in the caller's state at each call
@@ -262,6 +263,8 @@ func (db *SpecDB) loadFile(pkgPath, file string) error {
 			for _, p := range ps {
 				cur.NoPanic[p] = true
 			}
+		case strings.HasPrefix(body, "nullable "):
+			cur.Nullable = append(cur.Nullable, strings.Fields(body[9:])...)
 		case body == "pure":
 			cur.Pure = true
 			cur.ModSet = true
